@@ -371,7 +371,7 @@ func runFullDiskCase(t *rapid.T, fc fullCfg) {
 		src := pick(t, srcs, "srcdir")
 		var tds []*MNode
 		for _, d := range x.M.LiveKind(nt.NF3DIR) {
-			if d != src.Parent && !x.RenameIsKnownFinding(src.Parent, src.Name, d) {
+			if d != src.Parent {
 				tds = append(tds, d)
 			}
 		}
